@@ -24,7 +24,7 @@ PROP = "C16"
 INF = z3.Real("__inf__")
 
 
-def build(n, signs, head, start_mask, attr_mask, fixed_mask):
+def build(n, signs, head, start_mask, attr_mask, fixed_mask, kinds=None):
     """Variables: h (head: state 'x' / input 'u' / none) and a1..an; a1 = (+/-)head or expression."""
     names = []
     if head in ("state", "input"):
@@ -38,11 +38,20 @@ def build(n, signs, head, start_mask, attr_mask, fixed_mask):
     if head in ("state", "input"):
         rel["h"] = 1
     decl, params = [], []
+    has = {}
     for k, v in enumerate(names):
         mods = []
-        if (attr_mask >> k) & 1:
-            mods += [f"min = lo_{v}", f"max = hi_{v}", f"nominal = n_{v}"]
-            params += [f"lo_{v}", f"hi_{v}", f"n_{v}"]
+        kind = (kinds[k] if kinds else "all") if (attr_mask >> k) & 1 else "none"
+        has[v] = {"min": kind in ("all", "min"), "max": kind in ("all", "max"), "nom": kind in ("all", "nom")}
+        if has[v]["min"]:
+            mods.append(f"min = lo_{v}")
+            params.append(f"lo_{v}")
+        if has[v]["max"]:
+            mods.append(f"max = hi_{v}")
+            params.append(f"hi_{v}")
+        if has[v]["nom"]:
+            mods.append(f"nominal = n_{v}")
+            params.append(f"n_{v}")
         if (start_mask >> k) & 1:
             mods.append(f"start = s_{v}")
             params.append(f"s_{v}")
@@ -67,7 +76,7 @@ def build(n, signs, head, start_mask, attr_mask, fixed_mask):
         eqs.append(f"  a{i + 1} = {'-' if s < 0 else ''}a{i};")
     text = ("model S\n" + "".join(f"  parameter Real {p} = 1;\n" for p in params) + "\n".join(decl) +
             "\nequation\n" + "\n".join(eqs) + "\nend S;\n")
-    info = {"names": names, "rel": rel, "attr": {v: bool((attr_mask >> k) & 1) for k, v in enumerate(names)},
+    info = {"names": names, "rel": rel, "attr": {v: bool((attr_mask >> k) & 1) for k, v in enumerate(names)}, "has": has,
             "start": {v: bool((start_mask >> k) & 1) for k, v in enumerate(names)},
             "fixed": {v: bool((fixed_mask >> k) & 1) for k, v in enumerate(names)}, "params": params}
     return text, info
@@ -118,9 +127,9 @@ def check(col, case, text, info):
     var = remaining[c]
     sgn = {v: info["rel"][v] * info["rel"][c] for v in members}
     P = lambda n: z3.Real(n)
-    lo = lambda v: P(f"lo_{v}") if info["attr"][v] else -INF
-    hi = lambda v: P(f"hi_{v}") if info["attr"][v] else INF
-    nom = lambda v: P(f"n_{v}") if info["attr"][v] else ops.ZERO
+    lo = lambda v: P(f"lo_{v}") if info["has"][v]["min"] else -INF
+    hi = lambda v: P(f"hi_{v}") if info["has"][v]["max"] else INF
+    nom = lambda v: P(f"n_{v}") if info["has"][v]["nom"] else ops.ZERO
     spec = {
         "min": zmax([lo(v) if sgn[v] > 0 else -hi(v) for v in members]),
         "max": zmin([hi(v) if sgn[v] > 0 else -lo(v) for v in members]),
@@ -244,6 +253,22 @@ def main():
                         continue
                     tag = "".join("+" if s > 0 else "-" for s in signs)
                     items.append((f"n{n}{tag}:{head}:s{sm}:a{am}:f{fm}", (n, signs, head, sm, am, fm)))
+    # one-sided bounds: every variable has only min, only max, only a nominal, all three or nothing
+    kinds_all = ("all", "min", "max", "nom")
+    for n in ((1, 2) if args.tier == "quick" else (1, 2, 3)):
+        for head in ("expr", "state", "input"):
+            nv = n + (1 if head != "expr" else 0)
+            if nv < 2 or nv > 3:
+                continue
+            for signs in itertools.product((1, -1), repeat=n - 1):
+                for kinds in itertools.product(kinds_all, repeat=nv):
+                    if all(k == "all" for k in kinds):
+                        continue
+                    if args.tier == "quick" and nv == 3 and ("nom" in kinds):
+                        continue
+                    for am in ((2 ** nv - 1, 2 ** nv - 2) if nv == 2 else (2 ** nv - 1,)):
+                        tag = "".join("+" if s > 0 else "-" for s in signs)
+                        items.append((f"n{n}{tag}:{head}:kinds[{','.join(kinds)}]:a{am}", (n, signs, head, 0, am, 0, list(kinds))))
     for col in run_parallel(work, items, args.jobs):
         rep.merge(col)
     # canary: nominal compared with min-of-nominals must be sat
@@ -253,7 +278,7 @@ def main():
     cov = rep.coverage
     cov["disagreements_checked"] = rep.queries.get("sat", 0)
     cov["functions_encoded"] = ["Model._simplify_once: detect_aliases attribute merging (executed on MX parameters)", "Model.variable_metadata_function"]
-    cov["bounds"] = "alias classes of 2..4 (thorough 5) variables, every sign pattern, canonical = state / input / algebraic, every subset of explicit starts; bounds/nominals/starts unbounded real parameters"
+    cov["bounds"] = "alias classes of 2..4 (thorough 5) variables, every sign pattern, canonical = state / input / algebraic, every subset of explicit starts; every combination of one-sided bounds (only min / only max / only nominal / all / none per variable) for classes of 2-3; bounds/nominals/starts unbounded real parameters"
     rep.assumptions += ["unset bounds are +/-inf: modelled by a constant INF with INF > every attribute parameter", "fixed flags are literals"]
     if not cov.get("programs"):
         rep.harness_error("nothing compared")
